@@ -73,28 +73,136 @@ def run(ctx, rep):
         edges.add((sbb, t_t if f(a, c) else f_t))
     rep.check("R20.1", "buffered-first", len(edges) >= 1 and pbb not in b.reach_v(avoid_edges=edges),
               "the next message is polled although buffered bytes could be delivered", b.loc(pt["line"]), sample={"justifying_edges": sorted(edges)})
-    # (b) binary payload appended whole
-    eo = b.origin(et["args"][1])
-    s = fmt_origin(eo)
+    # (b)-(f) on the path table of one loop iteration (path-resolved: a helper that reports the polled message through a
+    # value of its own, e.g. an enum, is seen through)
+    from mirq import simplify
+    try:
+        rows = b.decision_rows(events=True)
+    except Exception as ex:
+        rep.fail("R20.1", "path-table", "path table of poll_read not extractable (%s)" % ex, b.loc())
+        return
 
     def chain(o):
         names = []
         x = o
-        for _ in range(12):
+        for _ in range(16):
             if x[0] == "field":
                 x = x[1]
             elif x[0] == "downcast":
                 names.append(x[3])
                 x = x[1]
+            elif x[0] in ("ref", "deref"):
+                x = x[1]
             else:
                 break
         return names, x
-    names, root = chain(eo)
-    okb = names[:4] == ["Binary", "Ok", "Some", "Ready"] and root[0] == "call" and root[4] == pbb
-    rep.check("R20.1", "binary-appended-whole", okb and callee(et)[0].endswith(("Extend::extend", "extend_from_slice")),
-              "the Binary payload of the polled message must be appended whole to self.buf (found %s via %s)" % (names, callee(et)[0]), b.loc(et["line"]),
-              sample={"payload_path": names, "append": callee(et)[0]})
-    rep.check("R20.1", "binary-continues", b.ret_kinds(et["target"]) == {"loop"}, "after appending a Binary payload the loop must be re-entered (exits %s)" % sorted(b.ret_kinds(et["target"])), b.loc(et["line"]))
+
+    def from_poll(o):
+        names, root = chain(o)
+        return names if root[0] == "call" and len(root) > 4 and root[4] == pbb else None
+    def gather(events):
+        """{projection chain from the polled value: (kind, values)}; None when two tests of one discriminant contradict"""
+        ks = {}
+        for e in events:
+            if e[0] == "cond" and e[4][0] == "discr":
+                nm = from_poll(simplify(e[4][1]))
+                if nm is None:
+                    continue
+                k = tuple(nm)
+                new = (e[2], tuple(e[3]))
+                old = ks.get(k)
+                if old is None:
+                    ks[k] = new
+                    continue
+                if old[0] == "eq" and new[0] == "eq":
+                    both = tuple(v for v in old[1] if v in new[1])
+                    if not both:
+                        return None
+                    ks[k] = ("eq", both)
+                elif old[0] == "eq" and new[0] == "ne":
+                    rest = tuple(v for v in old[1] if v not in new[1])
+                    if not rest:
+                        return None
+                    ks[k] = ("eq", rest)
+                elif old[0] == "ne" and new[0] == "eq":
+                    rest = tuple(v for v in new[1] if v not in old[1])
+                    if not rest:
+                        return None
+                    ks[k] = ("eq", rest)
+                else:
+                    ks[k] = ("ne", tuple(sorted(set(old[1]) | set(new[1]))))
+        return ks
+    paths = []
+    for conds, ret, trace in rows:
+        ip = [i for i, e in enumerate(trace) if e[0] == "call" and e[1] == pbb]
+        if not ip:
+            continue
+        after = trace[ip[0] + 1:]
+        kinds = gather(after)
+        if kinds is None:
+            continue          # the match lowering tests one discriminant twice; contradictory answers = not a path of the program
+        appends = [e for e in after if e[0] == "call" and (e[2] or "").endswith(("Extend::extend", "extend_from_slice")) and e[4] and is_buf(simplify(e[4][0]))]
+        bufmut = [e for e in after if e[0] == "call" and e not in appends and any(is_buf(simplify(a)) and a[0] == "ref" for a in e[4])
+                  and not (e[2] or "").endswith(("is_empty", "::len", "remaining", "has_remaining", "Deref::deref"))]
+        outw = [e for e in after if e[0] == "call" and (e[2] or "").startswith("tokio::io::read_buf::ReadBuf")
+                and (e[2] or "").split("::")[-1] in ("put_slice", "advance", "set_filled", "assume_init", "initialize_unfilled")]
+        paths.append({"kinds": kinds, "appends": appends, "bufmut": bufmut, "outw": outw, "ret": ret, "line": pt["line"]})
+
+    def is_(p, names, kind, val):
+        c = p["kinds"].get(tuple(names))
+        return c is not None and ((c[0] == "eq" and c[1] == (val,)) if kind == "eq" else (c[0] == "ne" and val in c[1]) or (c[0] == "eq" and val not in c[1]))
+    READY, SOME, OK_ = ((), "eq", 0), (("Ready",), "eq", 1), (("Some", "Ready"), "eq", 0)
+    msg_paths = [p for p in paths if all(is_(p, *c) for c in (READY, SOME, OK_))]
+    bin_paths = [p for p in msg_paths if p["appends"]]
+    other_paths = [p for p in msg_paths if not p["appends"]]
+    okb = len(bin_paths) >= 1
+    detail = "no path appends the payload of a polled message to self.buf"
+    for p in bin_paths:
+        a = p["appends"]
+        src = simplify(a[0][4][1]) if len(a) == 1 and len(a[0][4]) > 1 else None
+        nm = from_poll(src) if src is not None else None
+        if len(a) != 1 or nm is None or nm[:4] != ["Binary", "Ok", "Some", "Ready"] or len(nm) > 5:
+            okb = False
+            detail = "the Binary payload of the polled message must be appended whole to self.buf (appended: %s)" % ([fmt_origin(simplify(x[4][1]))[:80] for x in a if len(x[4]) > 1],)
+    rep.check("R20.1", "binary-appended-whole", okb, detail, b.loc(et["line"]), sample={"paths_with_append": len(bin_paths), "append": callee(et)[0]})
+    rep.check("R20.1", "binary-continues", bool(bin_paths) and all(p["ret"][1] == "loop" for p in bin_paths),
+              "after appending a Binary payload the loop must be re-entered (exits %s)" % sorted({p["ret"][1] for p in bin_paths}), b.loc(et["line"]))
+    kind_vals = {p["kinds"].get(("Ok", "Some", "Ready")) for p in bin_paths}
+    rep.check("R20.1", "message-kind-match", len(kind_vals) == 1 and None not in kind_vals and all(k[0] == "eq" and len(k[1]) == 1 for k in kind_vals),
+              "exactly one message kind (Binary) must lead to the append (kinds tested on appending paths: %s)" % sorted(kind_vals, key=str), b.loc(pt["line"]), nontrivial=False)
+    rep.check("R20.1", "non-binary-ignored:0", bool(other_paths) and all(not p["bufmut"] and not p["outw"] and p["ret"][1] == "loop" for p in other_paths),
+              "a non-binary message must be skipped without touching the buffer and the loop re-entered (exits %s, buffer calls %s)"
+              % (sorted({p["ret"][1] for p in other_paths}), sorted({(e[2] or "") for p in other_paths for e in p["bufmut"]})), b.loc(pt["line"]),
+              sample={"paths": len(other_paths)})
+    none_paths = [p for p in paths if is_(p, *READY) and is_(p, ("Ready",), "eq", 0)]
+
+    def ready_ok(ret):
+        if ret[1] != "Ready" or len(ret) < 4 or not ret[3]:
+            return False
+        x = simplify(ret[3][0])
+        return x[0] == "agg" and x[1][0] == "adt" and x[1][3] == "Ok"
+    rep.check("R20.1", "end-of-stream", bool(none_paths) and all(ready_ok(p["ret"]) and not p["outw"] and not p["appends"] for p in none_paths),
+              "end of stream must return Ready(Ok(())) with nothing written to the caller's buffer (exits %s)" % sorted({p["ret"][1] for p in none_paths}), b.loc(pt["line"]),
+              sample={"paths": len(none_paths)})
+    err_paths = [p for p in paths if is_(p, *READY) and is_(p, *SOME) and is_(p, ("Some", "Ready"), "eq", 1)]
+
+    def ready_err(ret):
+        if ret[1] != "Ready" or len(ret) < 4 or not ret[3]:
+            return False
+        x = simplify(ret[3][0])
+        return x[0] == "agg" and x[1][0] == "adt" and x[1][3] == "Err"
+    rep.check("R20.1", "errors-returned", bool(err_paths) and all(ready_err(p["ret"]) for p in err_paths),
+              "an error of the websocket must be returned as Ready(Err(..)) (exits %s)" % sorted({p["ret"][1] for p in err_paths}), b.loc(pt["line"]))
+    all_rows_pending = [r for r in rows if r[1][1] == "Pending"]
+    pend_ok = bool(all_rows_pending)
+    for conds, ret, trace in all_rows_pending:
+        ks = gather(trace)
+        if ks is None:
+            continue
+        c = ks.get(())
+        if not (c is not None and c[0] == "eq" and c[1] == (1,)):
+            pend_ok = False
+    rep.check("R20.1", "pending-only-from-poll", pend_ok, "Pending must be returned only when poll_next itself is Pending", b.loc(pt["line"]))
     # who may mutate self.buf
     muts = []
     for bb, t in b.calls():
@@ -103,49 +211,6 @@ def run(ctx, rep):
                 muts.append(callee(t)[0])
     allowed = {callee(et)[0], callee(ct)[0]}
     rep.check("R20.1", "only-append-and-serve", set(muts) <= allowed and len(muts) == 2, "self.buf is mutated by %s; only the append and the serve may" % muts, b.loc(), sample={"mutators": muts})
-    # (c) message kind switch
-    msg_sw = [s_ for s_ in b.switch_on(lambda o: o[0] == "discr" and chain(o[1])[0][:3] == ["Ok", "Some", "Ready"] and chain(o[1])[1][0] == "call" and chain(o[1])[1][4] == pbb)
-              if b.dominates(pbb, s_[0]) and ebb in b.reach_within_iteration(s_[0])]
-    rep.check("R20.1", "message-kind-match", len(msg_sw) == 1, "expected one match on the message kind (found %d)" % len(msg_sw), b.loc(pt["line"]), nontrivial=False)
-    if len(msg_sw) == 1:
-        sbb, targets, otherwise, o = msg_sw[0]
-        bin_t = [tb for v, tb in targets.items() if ebb in b.reach_within_iteration(tb)]
-        other_ts = [tb for tb in list(targets.values()) + [otherwise] if tb not in bin_t]
-        for n, tb in enumerate(sorted(set(other_ts))):
-            region = b.reach_within_iteration(tb)
-            if all(b.blocks[x]["term"] and b.blocks[x]["term"]["k"] == "unreachable" for x in [tb]):
-                continue
-            touched = [callee(b.blocks[x]["term"])[0] for x in region if b.blocks[x]["term"] and b.blocks[x]["term"]["k"] == "call"
-                       and any(is_buf(b.origin(a)) and ty.startswith("&mut") for a, ty in zip(b.blocks[x]["term"]["args"], b.blocks[x]["term"]["argtys"]))]
-            kinds = b.ret_kinds(tb)
-            rep.check("R20.1", "non-binary-ignored:%d" % n, not touched and kinds == {"loop"},
-                      "a non-binary message must be skipped without touching the buffer and the loop re-entered (buffer calls %s, exits %s)" % (touched, sorted(kinds)), b.loc(pt["line"]),
-                      sample={"exits": sorted(kinds)})
-    # (d) end of stream / pending / errors, from the decision table
-    rows = b.decision_rows()
-    for conds, ret, others in rows:
-        pass
-    # None edge
-    some_sw = b.switch_on(lambda o: o[0] == "discr" and chain(o[1])[0] == ["Ready"] and chain(o[1])[1][0] == "call" and chain(o[1])[1][4] == pbb)
-    some_sw = [s_ for s_ in some_sw if b.dominates(pbb, s_[0]) and ebb in b.reach_within_iteration(s_[0])]
-    if len(some_sw) == 1:
-        sbb, targets, otherwise, o = some_sw[0]
-        none_t = targets.get(0, otherwise)
-        region = b.reach_within_iteration(none_t)
-        wrote = [x for x in region if b.blocks[x]["term"] and b.blocks[x]["term"]["k"] == "call" and (callee(b.blocks[x]["term"])[0] or "").startswith("tokio::io::read_buf::ReadBuf") and
-                 callee(b.blocks[x]["term"])[0].split("::")[-1] in ("put_slice", "advance", "set_filled", "assume_init", "initialize_unfilled")]
-        rep.check("R20.1", "end-of-stream", b.ret_kinds(none_t) == {"Ready"} and not wrote,
-                  "end of stream must return Ready(Ok(())) with nothing written to the caller's buffer (exits %s)" % sorted(b.ret_kinds(none_t)), b.loc(pt["line"]))
-    else:
-        rep.fail("R20.1", "end-of-stream", "no match on Option of the polled item found", b.loc(pt["line"]))
-    cands = [s_ for s_ in b.switch_on(lambda o: o[0] == "discr" and o[1][0] == "call" and o[1][4] == pbb) if ebb in b.reach_within_iteration(s_[0])]
-    poll_sw = cands[0] if len(cands) == 1 else None
-    pend_blocks = [i for i, bl in enumerate(b.blocks) for st in bl["stmts"] if st["k"] == "assign" and st["place"]["l"] == 0 and st["rv"]["k"] == "agg" and st["rv"].get("vname") == "Pending"]
-    okp = False
-    if poll_sw is not None:
-        pend_t = poll_sw[1].get(1, poll_sw[2])
-        okp = len(pend_blocks) >= 1 and all(pb not in b.reach(0, avoid_edges={(poll_sw[0], pend_t)}) for pb in pend_blocks)
-    rep.check("R20.1", "pending-only-from-poll", okp, "Pending must be returned only when poll_next itself is Pending", b.loc(pt["line"]))
     # (g) serve min(remaining, buffered)
     co = b.origin(ct["args"][1])
     oks = co[0] == "call" and co[1].endswith("Ord::min") and {("remaining" in (a[1] if a[0] == "call" else "")) or ("len" in (a[1] if a[0] == "call" else "")) for a in co[3]} == {True}
